@@ -138,7 +138,7 @@ def _check_generated(tag: str, text: str, names):
     return res
 
 
-def extra_obligations():
+def shape_obligations():
     """Second, translator-based tie. From /repo's CURRENT hashed_data.py regenerate the `IterShape` of
     HashedIterable.__iter__/__bool__ and have the kernel re-check, by `decide`, that it is one of the two hand-written
     machines (`Dom.shape` / `Dom.shapeIdx`) or the snapshot variant, and satisfies `IterOk` (Props/C03Shape.lean turns that into the property on
@@ -910,3 +910,11 @@ def _one(case: Case) -> str:
 
 def run_impl(cases):
     return [_one(c) for c in cases]
+
+
+def extra_obligations():
+    """both translator ties of this property: the IterShape of HashedIterable.__iter__/__bool__ (shape_obligations) and the IR
+    of the evaluation methods `Eql.eval` transcribes, shared with C01 / C02 / C10 (harness/translate/c01_translate.py: the IR
+    regenerated from the current `symbolic.py` is `Eql.IR.irTable`)"""
+    from translate import c01_translate as T
+    return list(shape_obligations()) + list(T.obligations(PID))
